@@ -21,6 +21,29 @@ func c10NumCases(env *core.Env) int {
 	return 700
 }
 
+// decoyRoot is the same document with every marker changed.
+func decoyRoot(doc interface{}) interface{} {
+	cp := oracle.DeepCopy(doc)
+	var walk func(v interface{})
+	walk = func(v interface{}) {
+		switch x := v.(type) {
+		case map[string]interface{}:
+			for k, w := range x {
+				if s, ok := w.(string); ok && (k == "title" || k == "description" || k == "x-mark" || k == "format") {
+					x[k] = s + " (decoy)"
+				}
+				walk(w)
+			}
+		case []interface{}:
+			for _, w := range x {
+				walk(w)
+			}
+		}
+	}
+	walk(cp)
+	return cp
+}
+
 // setAt returns a deep copy of doc with the value at toks replaced.
 func setAt(doc interface{}, toks []string, v interface{}) interface{} {
 	cp := oracle.DeepCopy(doc)
@@ -182,9 +205,13 @@ func c10Run(env *core.Env, idx int) core.CaseResult {
 						// a fragment-only holder has no document of its own with a base location: give it the root's
 						// (ExpandSchemaWithBasePath reads "#/..." in the document at RelativeBase)
 					}
-					for _, prefilled := range []bool{false, true} {
-						if prefilled && (e.name == "ExpandParameter" || e.name == "ExpandResponse") {
+					for _, cacheMode := range []string{"none", "prefilled", "reused"} {
+						prefilled := cacheMode == "prefilled"
+						if cacheMode != "none" && (e.name == "ExpandParameter" || e.name == "ExpandResponse") {
 							continue // no cache argument
+						}
+						if cacheMode == "reused" && !takesRoot {
+							continue
 						}
 						ld := newLoader(w)
 						saved := spec.PathLoader
@@ -214,6 +241,23 @@ func c10Run(env *core.Env, idx int) core.CaseResult {
 								cache.Set(u, g)
 							}
 						}
+						if cacheMode == "reused" {
+							// the same cache has served an expansion against another root before (same names, other content)
+							cache = spec.VerifNewDefaultCache()
+							decoy := decoyRoot(in.Docs[w.Root])
+							var droot interface{} = decoy
+							if rootKind == "typed" {
+								sw := new(spec.Swagger)
+								db, _ := json.Marshal(decoy)
+								_ = json.Unmarshal(db, sw)
+								droot = sw
+							}
+							func() {
+								defer func() { _ = recover() }()
+								_, _ = e.run(true, droot, cache, nil)
+							}()
+							res.Count("reused-cache", 1)
+						}
 						opts := &spec.ExpandOptions{RelativeBase: w.Root, PathLoader: ld.load, AbsoluteCircularRef: rng.Intn(2) == 0}
 						before := snapOpts(opts)
 						var rootBefore interface{}
@@ -241,7 +285,7 @@ func c10Run(env *core.Env, idx int) core.CaseResult {
 						curHooks = nil
 						spec.PathLoader = saved
 						res.Evals++
-						label := fmt.Sprintf("%s root=%s holder=%v prefilled-cache=%v", e.name, rootKind, asRef, prefilled)
+						label := fmt.Sprintf("%s root=%s holder=%v cache=%s", e.name, rootKind, asRef, cacheMode)
 						res.Count("entry."+e.name, 1)
 						if prefilled {
 							res.Count("prefilled-cache", 1)
@@ -314,7 +358,7 @@ func init() {
 		Run:      c10Run,
 		Floors: func(env *core.Env) []string {
 			return []string{"entry.ExpandSchema", "entry.ExpandSchemaWithBasePath", "entry.ExpandParameterWithRoot", "entry.ExpandParameter", "entry.ExpandResponseWithRoot", "entry.ExpandResponse",
-				"prefilled-cache", "kept-refs", "world.cyclic", "world.acyclic"}
+				"prefilled-cache", "reused-cache", "kept-refs", "world.cyclic", "world.acyclic"}
 		},
 		Assumptions: []string{"the *WithRoot entry points are documented to reach the root document only: their worlds are single-document",
 			"ExpandParameter/ExpandResponse read documents through the package-level PathLoader, which the worker points at the world for the duration of the call"},
